@@ -253,7 +253,13 @@ fn model_case(cmds: &[Cmd]) -> (String, Vec<&'static str>) {
             std::mem::forget(eg);
             break;
         }
-        let obs = clist(ns.iter().map(|n| format!("({}, {})", n.coq(), obs_coq(&observe(&mut eg, &n.text())))));
+        // full digest after the last command and after every rejected command; otherwise the names the
+        // command mentions (the state is cumulative, so a stray change surfaces in a later full digest)
+        let full = used.len() == cmds.len() || res == "OReject";
+        let mut mentioned = Vec::new();
+        c.names(&mut mentioned);
+        let sel: Vec<&Name> = ns.iter().filter(|n| full || mentioned.contains(n)).collect();
+        let obs = clist(sel.iter().map(|n| format!("({}, {})", n.coq(), obs_coq(&observe(&mut eg, &n.text())))));
         steps.push(format!("({res}, {obs})"));
     }
     let term = format!("({},\n  {})", clist(used.iter().map(|c| format!("({})", c.coq()))), clist(steps.into_iter()));
@@ -443,6 +449,7 @@ fn run_all(o: &Opts) -> i32 {
         replay_inputs.push(inp);
     }
     let mut replay_bytes: Vec<bytes::ByteInput> = Vec::new();
+    let mut total_evals = 0usize;
     for inp in &replay_inputs {
         match inp["kind"].as_str() {
             Some("session") => {
@@ -457,8 +464,14 @@ fn run_all(o: &Opts) -> i32 {
                 };
                 for m in modes {
                     if bad < with.len() {
-                        let r = compare_sessions(m, &with, bad, &dump, sub);
+                        let mut r = compare_sessions(m, &with, bad, &dump, sub);
                         *mode_hist.entry(format!("replay:{}", m.name())).or_insert(0) += 1;
+                        total_evals += 1;
+                        if let Some(k) = inp["key"].as_str() {
+                            for v in r.violations.iter_mut() {
+                                v.key = k.to_string();
+                            }
+                        }
                         violations.extend(r.violations);
                     }
                 }
@@ -475,7 +488,6 @@ fn run_all(o: &Opts) -> i32 {
         }
     }
 
-    let mut total_evals = 0usize;
     if o.replay.is_some() {
         if !replay_bytes.is_empty() {
             violations.extend(run_bytes(o, &replay_bytes, &mut bytes_hist));
